@@ -119,6 +119,10 @@ package document
 // except w:pPr is skipped WHOLE: runs nested in w:hyperlink, w:smartTag, w:ins, w:sdt, w:fldSimple ... are NOT direct
 // children and their text is not kept - the library has no object for these containers (documented limitation; the
 // contract claims nothing about them beyond "the walker does not lose its place").
+// noParaSect(p0): behind p0 no w:pPr element has a w:sectPr child. (A paragraph-level section break makes the reader put a section
+// object into the BODY list while it is still inside the paragraph - setSectionProperties; the body-level contracts below
+// are stated for token sequences without such breaks, which the library's own writer never produces: ParagraphProperties has no sectPr.)
+//@ spec noParaSect(p0 int) bool = forall s int :: {xmlTok(s)} p0 <= s && tokIsEnd(s) && tokLocal(s) == "pPr" ==> kidCnt(xmlOpen(s) + 1, s, "sectPr") == 0
 //@ spec runAt(p *Paragraph, i int, e int) bool = 0 <= i && i < len(p.Runs) && ite(lastKidEnd(xmlOpen(e) + 1, e, "t") < 0, p.Runs[i].Text.Content == "" && p.Runs[i].Text.Space == "", p.Runs[i].Text.Content == charsCat(xmlOpen(lastKidEnd(xmlOpen(e) + 1, e, "t")) + 1, lastKidEnd(xmlOpen(e) + 1, e, "t")) && p.Runs[i].Text.Space == av(xmlOpen(lastKidEnd(xmlOpen(e) + 1, e, "t")), "space"))
 //@ func (*Document).parseParagraph
 //@ props C06, C03, C04
@@ -132,6 +136,8 @@ package document
 //@ ensures xmlPos() >= old(xmlPos())
 //@ ensures err == nil && plainT(old(xmlPos())) ==> xmlPos() > old(xmlPos()) && tokIsEnd(xmlPos() - 1) && xmlDepth(xmlPos()) == old(xmlDepth(xmlPos())) - 1
 //@ ensures err == nil && plainT(old(xmlPos())) ==> forall k int :: {xmlDepth(k)} old(xmlPos()) <= k && k < xmlPos() ==> xmlDepth(k) >= old(xmlDepth(xmlPos()))
+//@ ensures err == nil && plainT(old(xmlPos())) ==> xmlOpen(xmlPos() - 1) == old(xmlPos()) - 1
+//@ ensures err == nil && plainT(old(xmlPos())) && noParaSect(old(xmlPos())) ==> d.Body == old(d.Body) && len(d.Body.Elements) == old(len(d.Body.Elements)) && (forall j int :: 0 <= j && j < len(d.Body.Elements) ==> d.Body.Elements[j] == old(d.Body.Elements[j]))
 //@ ensures err == nil && plainT(old(xmlPos())) ==> len(result0.Runs) == kidCnt(old(xmlPos()), xmlPos() - 1, "r")
 //@ ensures err == nil && plainT(old(xmlPos())) ==> forall e int :: {xmlOpen(e)} e < xmlPos() - 1 && kidEnd(old(xmlPos()), e, old(xmlDepth(xmlPos())), "r") ==> runAt(result0, kidCnt(old(xmlPos()), xmlOpen(e), "r"), e)
 //@ loop 1
@@ -142,6 +148,66 @@ package document
 //@   invariant xmlPos() >= old(xmlPos())
 //@   invariant plainT(old(xmlPos())) ==> xmlDepth(xmlPos()) == old(xmlDepth(xmlPos()))
 //@   invariant plainT(old(xmlPos())) ==> forall k int :: {xmlDepth(k)} old(xmlPos()) <= k && k < xmlPos() ==> xmlDepth(k) >= old(xmlDepth(xmlPos()))
+//@   invariant plainT(old(xmlPos())) && noParaSect(old(xmlPos())) ==> d.Body == old(d.Body) && len(d.Body.Elements) == old(len(d.Body.Elements)) && (forall j int :: 0 <= j && j < len(d.Body.Elements) ==> d.Body.Elements[j] == old(d.Body.Elements[j]))
 //@   invariant plainT(old(xmlPos())) ==> len(paragraph.Runs) == kidCnt(old(xmlPos()), xmlPos(), "r")
 //@   invariant plainT(old(xmlPos())) ==> forall e int :: {xmlOpen(e)} e < xmlPos() && kidEnd(old(xmlPos()), e, old(xmlDepth(xmlPos())), "r") ==> runAt(paragraph, kidCnt(old(xmlPos()), xmlOpen(e), "r"), e)
+//@   decreases xmlRem()
+
+
+// The body level (C03 "same sequence of paragraphs, tables and breaks"; C04): parseBodySubElement turns the child whose start tag
+// was just read into ONE body element of the matching kind (w:p -> *Paragraph, w:tbl -> *Table, w:sectPr -> *SectionProperties)
+// and skips every other child whole, yielding nil; parseBodyElement appends one element per recognised DIRECT child of w:body, in
+// document order: the element built from the child that ends at e sits at index old(len) + bodyCnt(children before it).
+//@ spec bodyKid(k int) bool = tokLocal(k) == "p" || tokLocal(k) == "tbl" || tokLocal(k) == "sectPr"
+//@ spec bodyCnt(p0 int, p int) int = ite(p <= p0 || p <= 0, 0, ite(closesKid(p0, p), bodyCnt(p0, xmlOpen(p - 1)) + ite(bodyKid(xmlOpen(p - 1)), 1, 0), bodyCnt(p0, p - 1)))
+//@ spec elemKind(x any, k int) bool = ref(x) != nil && ite(tokLocal(k) == "p", typeIs(x, "*Paragraph"), ite(tokLocal(k) == "tbl", typeIs(x, "*Table"), typeIs(x, "*SectionProperties")))
+//@ spec bodyKidEnd(p0 int, e int, dp int) bool = p0 <= e && tokIsEnd(e) && xmlDepth(e + 1) == dp && bodyKid(xmlOpen(e))
+//@ func (*Document).parseBodySubElement
+//@ props C06, C03, C04
+//@ requires d != nil && decoder != nil
+//@ requires xmlPos() >= 1 && tokIsStart(xmlPos() - 1) && tokLocal(xmlPos() - 1) == startElement.Name.Local   // startElement is the start tag just consumed
+//@ ensures err == nil && result0 != nil ==> ref(result0) != nil
+//@ ensures xmlRem() <= old(xmlRem())
+//@ ensures old(d.Body) != nil ==> d.Body != nil
+//@ ensures old(d.Body) != nil && old(elemsOK(d.Body.Elements)) ==> elemsOK(d.Body.Elements)
+//@ ensures xmlPos() >= old(xmlPos())
+//@ ensures err == nil && plainT(old(xmlPos())) ==> xmlPos() > old(xmlPos()) && tokIsEnd(xmlPos() - 1) && xmlDepth(xmlPos()) == old(xmlDepth(xmlPos())) - 1
+//@ ensures err == nil && plainT(old(xmlPos())) ==> forall k int :: {xmlDepth(k)} old(xmlPos()) <= k && k < xmlPos() ==> xmlDepth(k) >= old(xmlDepth(xmlPos()))
+//@ ensures err == nil && plainT(old(xmlPos())) ==> xmlOpen(xmlPos() - 1) == old(xmlPos()) - 1
+//@ ensures err == nil && plainT(old(xmlPos())) && noParaSect(old(xmlPos())) ==> d.Body == old(d.Body) && len(d.Body.Elements) == old(len(d.Body.Elements)) && (forall j int :: 0 <= j && j < len(d.Body.Elements) ==> d.Body.Elements[j] == old(d.Body.Elements[j]))
+//@ ensures err == nil ==> (result0 != nil) == bodyKid(old(xmlPos()) - 1)
+//@ ensures err == nil && result0 != nil ==> elemKind(result0, old(xmlPos()) - 1)
+
+//@ func (*Document).parseBodyElement
+//@ props C06, C03, C04
+//@ appendfacts
+//@ requires d != nil && decoder != nil && d.Body != nil
+//@ requires xmlPos() >= 1 && tokIsStart(xmlPos() - 1) && tokLocal(xmlPos() - 1) == "body"
+//@ ensures xmlRem() <= old(xmlRem())
+//@ ensures old(d.Body) != nil ==> d.Body != nil
+//@ ensures old(d.Body) != nil && old(elemsOK(d.Body.Elements)) ==> elemsOK(d.Body.Elements)
+//@ ensures xmlPos() >= old(xmlPos())
+// a nil result means: the whole w:body element was consumed (depth one less than at entry), or the loop was left through its
+// io.EOF exit in the middle of the element (depth not below the entry depth; encoding/xml reports a syntax error there rather
+// than io.EOF, the decoder model does not know that): the clauses below cover both, the position of the last child counted is
+// xmlPos() - 1 in the first case and xmlPos() in the second
+//@ ensures result == nil && plainT(old(xmlPos())) ==> xmlDepth(xmlPos()) >= old(xmlDepth(xmlPos())) - 1
+//@ ensures result == nil && plainT(old(xmlPos())) && xmlDepth(xmlPos()) < old(xmlDepth(xmlPos())) ==> xmlPos() > old(xmlPos()) && tokIsEnd(xmlPos() - 1) && xmlOpen(xmlPos() - 1) == old(xmlPos()) - 1
+//@ ensures result == nil && plainT(old(xmlPos())) ==> forall k int :: {xmlDepth(k)} old(xmlPos()) <= k && k < xmlPos() ==> xmlDepth(k) >= old(xmlDepth(xmlPos()))
+//@ ensures result == nil && plainT(old(xmlPos())) && noParaSect(old(xmlPos())) ==> d.Body == old(d.Body)
+//@ ensures result == nil && plainT(old(xmlPos())) && noParaSect(old(xmlPos())) ==> forall j int :: 0 <= j && j < old(len(d.Body.Elements)) ==> d.Body.Elements[j] == old(d.Body.Elements[j])
+//@ ensures result == nil && plainT(old(xmlPos())) && noParaSect(old(xmlPos())) ==> len(d.Body.Elements) == old(len(d.Body.Elements)) + bodyCnt(old(xmlPos()), ite(xmlDepth(xmlPos()) < old(xmlDepth(xmlPos())), xmlPos() - 1, xmlPos()))
+//@ ensures result == nil && plainT(old(xmlPos())) && noParaSect(old(xmlPos())) ==> forall e int :: {xmlOpen(e)} e < ite(xmlDepth(xmlPos()) < old(xmlDepth(xmlPos())), xmlPos() - 1, xmlPos()) && bodyKidEnd(old(xmlPos()), e, old(xmlDepth(xmlPos()))) ==> 0 <= bodyCnt(old(xmlPos()), xmlOpen(e)) && old(len(d.Body.Elements)) + bodyCnt(old(xmlPos()), xmlOpen(e)) < len(d.Body.Elements) && elemKind(d.Body.Elements[old(len(d.Body.Elements)) + bodyCnt(old(xmlPos()), xmlOpen(e))], xmlOpen(e))
+//@ loop 1
+//@   invariant xmlRem() <= old(xmlRem())
+//@   invariant old(d.Body) != nil ==> d.Body != nil
+//@   invariant old(d.Body) != nil && old(elemsOK(d.Body.Elements)) ==> elemsOK(d.Body.Elements)
+//@   invariant xmlPos() >= old(xmlPos())
+//@   invariant plainT(old(xmlPos())) ==> xmlDepth(xmlPos()) == old(xmlDepth(xmlPos()))
+//@   invariant plainT(old(xmlPos())) ==> forall k int :: {xmlDepth(k)} old(xmlPos()) <= k && k < xmlPos() ==> xmlDepth(k) >= old(xmlDepth(xmlPos()))
+//@   invariant plainT(old(xmlPos())) && noParaSect(old(xmlPos())) ==> d.Body == old(d.Body)
+//@   invariant plainT(old(xmlPos())) && noParaSect(old(xmlPos())) ==> bodyCnt(old(xmlPos()), xmlPos()) >= 0
+//@   invariant plainT(old(xmlPos())) && noParaSect(old(xmlPos())) ==> len(d.Body.Elements) == old(len(d.Body.Elements)) + bodyCnt(old(xmlPos()), xmlPos())
+//@   invariant plainT(old(xmlPos())) && noParaSect(old(xmlPos())) ==> forall j int :: 0 <= j && j < old(len(d.Body.Elements)) ==> d.Body.Elements[j] == old(d.Body.Elements[j])
+//@   invariant plainT(old(xmlPos())) && noParaSect(old(xmlPos())) ==> forall e int :: {xmlOpen(e)} e < xmlPos() && bodyKidEnd(old(xmlPos()), e, old(xmlDepth(xmlPos()))) ==> 0 <= bodyCnt(old(xmlPos()), xmlOpen(e)) && old(len(d.Body.Elements)) + bodyCnt(old(xmlPos()), xmlOpen(e)) < len(d.Body.Elements) && elemKind(d.Body.Elements[old(len(d.Body.Elements)) + bodyCnt(old(xmlPos()), xmlOpen(e))], xmlOpen(e))
 //@   decreases xmlRem()
